@@ -189,6 +189,16 @@ CHECKS = {
         "DESIGN.md 6 C15",
         TRUST,
     ),
+    "C18": (
+        "TLC exhaustive check of Restart.tla (restart helper over every set of checkpoint files: largest index, time cross-check, "
+        "refusals; crash/restore at every step index with arbitrary scratch in the fresh objects; first-found and hidden-state "
+        "variants refuted) + every helper case replayed with real h5 files and a real PyElastica restart directory + real coupled "
+        "runs (2-D cylinder, 3-D rod) resumed from every checkpoint index in fresh objects and re-run with all scratch poisoned",
+        "Model checking over all file sets / crash points + conformance of the real helper and of real resumed runs; the "
+        "def-before-use content is model checked in FlowStep.tla (arbitrary initial buffers).",
+        "DESIGN.md 6 C18",
+        TRUST,
+    ),
 }
 
 NOT_YET = "check not built yet in this round (see DESIGN.md 11 for the build order)"
